@@ -145,8 +145,12 @@ class C10(Check):
                                                    ('field', 'tail', ('opt', ('ref', 'R1')))]))
                 rules.append(('class', 'Start', None, [('field', 'b', ('ref', 'KB')), ('field', 'again', ('opt', ('ref', 'KA')))]))
                 g = g.copy(rules=rules)
-            ws = [' ', '\n', '  ', ' \n', '\n\n ', '']
-            ign = ('rx', '[ \\n]+')
+            # blanks, newlines and other characters that str.splitlines() - but not the statement -
+            # treats as line boundaries (they are ordinary ignorable characters here)
+            ws = [' ', '\n', '  ', ' \n', '\n\n ', '', '\x0c', ' \r', '\x0b ', '\x85']
+            if g.mode != 'bytes':
+                ws += ['\u2028', ' \u2029']
+            ign = ('rx', '\\s+')
             g = g.copy(ignores=[('Space' if data.draw(st.booleans()) else None, ign)])
             base = gens.all_inputs('ab12' if rich else 'ab', 3 if rich else 4)
             texts = []
